@@ -276,7 +276,7 @@ class _ManifoldDynamicsService(_DynamicsServiceBase):
         )
 
         def _factory() -> Tuple[float, float, List[np.ndarray], List[np.ndarray], int, int]:
-            self._manifold_result = self._run_compute(
+            return self._run_compute(
                 step=step,
                 integration_fraction=integration_fraction,
                 NN=NN,
@@ -288,9 +288,10 @@ class _ManifoldDynamicsService(_DynamicsServiceBase):
                 safe_distance=safe_distance,
                 show_progress=show_progress,
             )
-            return self._manifold_result
 
-        return self.get_or_create(cache_key, _factory)
+        # Also on a cache hit the result just requested is the current one
+        self._manifold_result = self.get_or_create(cache_key, _factory)
+        return self._manifold_result
 
     def _run_compute(
         self,
